@@ -38,6 +38,25 @@ struct CellB {  // element of the CompactEnumerableThreadLocal under test: 8 per
 using Etl = babylon::EnumerableThreadLocal<CellA>;
 using Cetl = babylon::CompactEnumerableThreadLocal<CellB, 1>;
 
+// read-only access to the instance ids of the compact thread-locals (to know which storage group an
+// instance lives in: id / NUM_PER_CACHELINE). Access checking does not apply to explicit instantiation
+// arguments, so no change to /repo is needed.
+template <class Tag, auto M>
+struct Steal {
+  friend constexpr auto steal(Tag) { return M; }
+};
+using AdderTl = babylon::CompactEnumerableThreadLocal<ssize_t, 64, true>;
+struct CetlIdTag { friend constexpr auto steal(CetlIdTag); };
+struct AdderTlIdTag { friend constexpr auto steal(AdderTlIdTag); };
+struct AdderStorageTag { friend constexpr auto steal(AdderStorageTag); };
+template struct Steal<CetlIdTag, &Cetl::_instance_id>;
+template struct Steal<AdderTlIdTag, &AdderTl::_instance_id>;
+template struct Steal<AdderStorageTag, &babylon::ConcurrentAdder::_storage>;
+constexpr uint32_t CETL_PER_GROUP = BABYLON_CACHELINE_SIZE * 1 / sizeof(CellB);      // 8
+constexpr uint32_t ADDER_PER_GROUP = BABYLON_CACHELINE_SIZE * 64 / sizeof(ssize_t);  // 512
+uint32_t group_of(const Cetl& x) { return (x.*steal(CetlIdTag{})) / CETL_PER_GROUP; }
+uint32_t group_of(const babylon::ConcurrentAdder& x) { return ((x.*steal(AdderStorageTag{})).*steal(AdderTlIdTag{})) / ADDER_PER_GROUP; }
+
 // Known genuine defect guard (VF_ALLOW_KNOWN=1 or VF_ALLOW_KNOWN=f8 re-enables the shape):
 // F8: the non-const EnumerableThreadLocal::for_each_alive does not clamp the alive thread-id ranges
 //     to the size of this instance's storage (the const overload does): on an instance whose storage
@@ -119,6 +138,12 @@ struct World {
   uint64_t churn_dtor_epoch = 0;  // bumped when such a destructor begins or ends
   uint64_t churn_rounds = 0, churn_concurrent = 0, churn_ctor_overlaps_dtor = 0, churn_helpers = 0;
   int helper_budget = 6;          // dsched allows 24 threads per case
+  // instance crowd: ballast instances that keep the instance ids of the working objects (and of every
+  // object created later, private churn included) spread over at least two storage groups
+  int crowd_kind = -1;  // -1 none, K_CETL or K_ADDER
+  std::vector<std::unique_ptr<Cetl>> ballast_cetl;
+  std::vector<std::unique_ptr<babylon::ConcurrentAdder>> ballast_adder;
+  uint64_t moves_across_groups = 0, moves_within_group = 0;
 };
 World* W = nullptr;
 
@@ -599,6 +624,52 @@ long pick_value(Chooser& c, Kind k, bool with_reader) {
   return (long)c.range(0, 15) - 5;
 }
 
+// Build the crowd (no threads exist: runs unscheduled). The id allocators are process-wide and keep their
+// free lists from case to case, so the crowd is grown until the ids in use really straddle a group
+// boundary, then ballast is released alternately from two groups: the LIFO free list then hands out ids
+// of alternating groups to the working objects, to the shells of moves and to the private-churn objects.
+template <class T>
+void build_crowd(std::vector<std::unique_ptr<T>>& ballast, uint32_t per_group, int extra, int nfree) {
+  size_t limit = (size_t)per_group * 2 + 8;
+  auto spans = [&](uint32_t* lo, uint32_t* hi) {
+    *lo = UINT32_MAX; *hi = 0;
+    for (auto& b : ballast) { uint32_t g = group_of(*b); if (g < *lo) *lo = g; if (g > *hi) *hi = g; }
+    return !ballast.empty() && *lo != *hi;
+  };
+  uint32_t lo, hi;
+  auto enough = [&]() {  // both end groups hold a few instances, so that some of each can be released
+    if (!spans(&lo, &hi)) return false;
+    size_t nlo = 0, nhi = 0;
+    for (auto& b : ballast) { uint32_t g = group_of(*b); nlo += g == lo; nhi += g == hi; }
+    return nlo >= 4 && nhi >= 4;
+  };
+  while (ballast.size() < limit && !enough()) ballast.emplace_back(new T());
+  for (int i = 0; i < extra; i++) ballast.emplace_back(new T());
+  if (!spans(&lo, &hi)) return;
+  // release alternately: an instance of the highest group, one of the lowest group, ...
+  for (int i = 0; i < nfree; i++) {
+    uint32_t want = (i & 1) ? lo : hi;
+    for (size_t k = ballast.size(); k-- > 0;)
+      if (group_of(*ballast[k]) == want) {
+        // keep at least one ballast instance per group alive
+        size_t same = 0;
+        for (auto& b : ballast) same += group_of(*b) == want;
+        if (same > 1) ballast.erase(ballast.begin() + (long)k);
+        break;
+      }
+  }
+}
+
+uint32_t obj_group(const Obj& o) {
+  if (o.kind == K_ADDER) return group_of(*o.adder);
+  if (o.kind == K_CETL) return group_of(*o.cetl);
+  return 0;
+}
+void note_move(uint32_t g_from, uint32_t g_to) {
+  if (g_from != g_to) { W->moves_across_groups++; dsched::label("move_across_storage_groups"); }
+  else W->moves_within_group++;
+}
+
 void move_object(Obj& o, bool assign) {
   // the moved-to object takes over identity, cells and thread caches; the moved-from one is a valid
   // fresh object (move construction) / holds the other's state (move assignment == swap)
@@ -607,12 +678,14 @@ void move_object(Obj& o, bool assign) {
       if (assign) {
         babylon::ConcurrentAdder tmp;
         tmp << 3;
+        note_move(group_of(*o.adder), group_of(tmp));
         tmp = std::move(*o.adder);  // swap: tmp has the counts, *o.adder has {3}
         if (o.adder->value() != 3) dsched::fail("move", "adder#%d: move assignment did not swap (moved-from reads %ld)", o.serial, (long)o.adder->value());
         if (tmp.value() != o.sum) dsched::fail("move", "adder#%d: moved-to reads %ld, exact %ld", o.serial, (long)tmp.value(), o.sum);
         *o.adder = std::move(tmp);  // swap back
       } else {
         std::unique_ptr<babylon::ConcurrentAdder> n(new babylon::ConcurrentAdder(std::move(*o.adder)));
+        note_move(group_of(*n), group_of(*o.adder));  // the shell now carries the id the new instance was born with
         if (o.adder->value() != 0) dsched::fail("move", "adder#%d: moved-from adder reads %ld", o.serial, (long)o.adder->value());
         o.adder = std::move(n);
       }
@@ -632,10 +705,18 @@ void move_object(Obj& o, bool assign) {
     case K_CETL: {
       if (assign) {
         std::unique_ptr<Cetl> n(new Cetl());
+        note_move(group_of(*o.cetl), group_of(*n));
         *n = std::move(*o.cetl);
         o.cetl = std::move(n);
       } else {
         std::unique_ptr<Cetl> n(new Cetl(std::move(*o.cetl)));
+        note_move(group_of(*n), group_of(*o.cetl));
+        {  // the moved-from shell is a valid empty instance
+          uint64_t t = 0;
+          const Cetl& shell = *o.cetl;
+          shell.for_each([&](const CellB& cb) { t += cb.count; });
+          if (t != 0) dsched::fail("move", "cetl#%d: moved-from instance still sums to %lu", o.serial, (unsigned long)t);
+        }
         o.cetl = std::move(n);
       }
       break;
@@ -648,6 +729,7 @@ void move_object(Obj& o, bool assign) {
 // implementation: operator=(&&) swaps id / offset / storage); the models swap with them
 bool swap_with_peer(Obj& o, Obj& peer) {
   if (o.kind != peer.kind || &o == &peer) return false;
+  if (o.kind != K_ETL) note_move(obj_group(o), obj_group(peer));
   switch (o.kind) {
     case K_ADDER: *o.adder = std::move(*peer.adder); break;
     case K_ETL: *o.etl = std::move(*peer.etl); break;
@@ -684,10 +766,28 @@ void run_case(Chooser& c) {
     babylon::ConcurrentAdder a; babylon::ConcurrentSummer s; babylon::ConcurrentMaxer mx; babylon::ConcurrentMiner mn; Cetl ce;
     (void)a.value(); (void)s.value(); (void)mx.value(); (void)mn.value();
   }
+  // ---- instance crowd (a share of the cases)
+  {
+    int crowd = (int)c.below(8);  // raw 0: none
+    int extra = c.range(0, 2), nfree = c.range(2, 6);
+    if (crowd == 1 || crowd == 2 || crowd == 3) world.crowd_kind = K_CETL;
+    else if (crowd == 4) world.crowd_kind = K_ADDER;
+    if (world.crowd_kind >= 0) {
+      dsched::quiet_begin();
+      if (world.crowd_kind == K_CETL) build_crowd(world.ballast_cetl, CETL_PER_GROUP, extra, nfree);
+      else build_crowd(world.ballast_adder, ADDER_PER_GROUP, extra, nfree);
+      dsched::quiet_end();
+      size_t n = world.crowd_kind == K_CETL ? world.ballast_cetl.size() : world.ballast_adder.size();
+      dsched::describe("crowd(%s,%zu alive,+%d,-%d) ", kind_name[world.crowd_kind], n, extra, nfree);
+      dsched::label(world.crowd_kind == K_CETL ? "crowd_cetl" : "crowd_adder");
+    }
+  }
   int nobj = c.range(1, 3);
+  if (world.crowd_kind >= 0 && nobj < 2) nobj = 2;
   dsched::describe("objs[");
   for (int i = 0; i < nobj; i++) {
     Kind k = (Kind)c.below(K_COUNT);
+    if (world.crowd_kind >= 0 && (i < 2 || c.chance(1, 2))) k = (Kind)world.crowd_kind;  // working objects of the crowded kind
     if (i > 0 && c.chance(1, 3)) k = world.objs[0]->kind;  // instances of one kind share storage / can be swapped
     world.objs.emplace_back(construct(k));
     dsched::describe("%s%s", i ? "," : "", kind_name[k]);
@@ -704,6 +804,11 @@ void run_case(Chooser& c) {
     for (int s = 0; s < nstruct; s++) {
       int what = (int)c.below(6);
       size_t j = c.below((uint32_t)world.objs.size());
+      if (world.crowd_kind >= 0 && c.chance(1, 2)) {  // crowded cases: mostly moves of objects of the crowded kind
+        what = 2;
+        for (size_t x = 0; x < world.objs.size(); x++)
+          if ((int)world.objs[(j + x) % world.objs.size()]->kind == world.crowd_kind) { j = (j + x) % world.objs.size(); break; }
+      }
       Obj& o = *world.objs[j];
       world.structural++;
       if (what == 0 || what == 1) {  // destroy + construct again: the instance id / cell is recycled
@@ -894,12 +999,21 @@ void run_case(Chooser& c) {
   if (world.churn_helpers) dsched::label_n("churn_helper", (uint32_t)world.churn_helpers);
   if (world.id_reused) dsched::label("thread_id_reused");
   if (world.overlapping_reads) dsched::label("overlapping_read");
-  if ((world.thread_gens >= 2 && world.id_reused) || world.recycled > 0 || world.thread_gens >= 2 || world.churn_ctor_overlaps_dtor > 0)
+  if ((world.thread_gens >= 2 && world.id_reused) || world.recycled > 0 || world.thread_gens >= 2 || world.churn_ctor_overlaps_dtor > 0 ||
+      world.moves_across_groups > 0)
     dsched::nontrivial();
   dsched::mix_hash(world.churn_rounds * 7 + world.churn_ctor_overlaps_dtor * 131 + world.churn_concurrent);
   for (auto& o : world.objs) dsched::mix_hash((uint64_t)o->kind * 1000003ULL + (uint64_t)o->sum * 31 + o->num + (uint64_t)o->ext * 7 + o->cells.size());
   dsched::mix_hash(world.structural * 131 + world.thread_gens);
+  if (world.moves_across_groups) dsched::label_n("moves_across_groups_total", (uint32_t)world.moves_across_groups);
+  dsched::mix_hash(world.moves_across_groups * 17 + world.moves_within_group);
   world.objs.clear();
+  if (world.crowd_kind >= 0) {
+    dsched::quiet_begin();
+    world.ballast_cetl.clear();
+    world.ballast_adder.clear();
+    dsched::quiet_end();
+  }
   W = nullptr;
 }
 
@@ -915,6 +1029,6 @@ int main(int argc, char** argv) {
   t.tune = tune;
   t.nontrivial_rule =
       "at least two thread generations (thread ids recycled), or an object constructed after a destroyed one (instance id / cell recycled), "
-      "or a private object constructed while another thread's private object was being destroyed";
+      "or a private object constructed while another thread's private object was being destroyed, or a move between instances of different storage groups";
   return vf::main_driver(argc, argv, t);
 }
